@@ -135,6 +135,14 @@ pub trait Zoo: MessageBody + Any + Send + PartialEq + Sized {
     fn ref_len(v: u64) -> usize;
     fn put(msg: &mut Message, value: Self);
     fn body(value: Self) -> Option<Body>;
+    /// `Body::new_with_len`: the caller declares the length (clonable + debuggable types only)
+    fn body_with_len(_value: Self, _len: usize) -> Option<Body> {
+        None
+    }
+    /// `Message::from_parts(header, Some(value))` (clonable + debuggable types only)
+    fn from_parts(_id: u16, _value: Self) -> Option<Message> {
+        None
+    }
 }
 
 fn s_of(v: u64) -> String {
@@ -160,6 +168,13 @@ macro_rules! plain {
             }
             fn body(value: Self) -> Option<Body> {
                 Some(Body::new(value))
+            }
+            fn body_with_len(value: Self, len: usize) -> Option<Body> {
+                Some(Body::new_with_len(value, len))
+            }
+            fn from_parts(id: u16, value: Self) -> Option<Message> {
+                let header = Message::default().id(id).header().clone();
+                Some(Message::from_parts(header, Some(value)))
             }
         }
     };
@@ -388,9 +403,16 @@ fn fresh<T: Zoo>(v: u64, id: u16, via: u64) -> (Message, usize) {
     let value = T::make(v);
     let len = T::ref_len(v);
     let mut msg = Message::default().id(id);
-    match via % 3 {
+    match via % 5 {
         0 => T::put(&mut msg, value),
         1 => msg.set_body(T::body(value).expect("body")),
+        3 if T::HOW == How::Plain => {
+            // the length is declared by the caller, independent of the value
+            let declared = (via / 5 % 1500) as usize;
+            msg.set_body(T::body_with_len(value, declared).expect("plain types have new_with_len"));
+            return (msg, declared);
+        }
+        4 if T::HOW == How::Plain => msg = T::from_parts(id, value).expect("plain types have from_parts"),
         _ => msg = msg.with_body(T::body(value).expect("body")),
     }
     (msg, len)
@@ -506,7 +528,7 @@ pub fn run_sequence(rng: &mut Rng, len: usize, obs: &mut Obs) -> (Vec<String>, O
                 let id = next_id;
                 next_id = next_id.wrapping_add(1);
                 let (msg, l) = dispatch!(tag, fresh, v, id, via);
-                ops.push(format!("new {} value-seed {v} via {}", dispatch!(tag, name_of,), via % 3));
+                ops.push(format!("new {} value-seed {v} via {} (0 set_content*, 1 set_body, 2 with_body, 3 Body::new_with_len, 4 Message::from_parts)", dispatch!(tag, name_of,), via % 5));
                 let sh = Shadow { tag, v, len: l, id };
                 fail!(dispatch!(tag, verify, &msg, &sh));
                 pool.push((msg, sh));
